@@ -15,7 +15,9 @@ NAME_START = "abcdefghijklmnopqrstuvwxyzABCDEFGHIJKLMNOPQRSTUVWXYZ_éßλ中"
 NAME_CHAR = NAME_START + "0123456789-."
 TEXT_CH = ["a", "Z", "0", " ", "  ", "\t", "\n", "<", ">", "&", '"', "'", "&amp;", "&lt;", "]]>", "<!--", "<para>", "é", "e\u0301", "\u212b", "\u2126", "ﬁ", "中", "\U0001F600", "\x85", " ", "\xa0", "{", "}", "%", "=", "/", "\\",
            # text that merely LOOKS like an entity reference, and the legal-but-unusual DEL / C1 control characters of XML 1.0
-           "&gamma;", "at&t;", "&map;", "&l;", "&a", "&;", "&#x41;", "\x7f", "\x80", "\x84", "\x86", "\x9f"]
+           "&gamma;", "at&t;", "&map;", "&l;", "&a", "&;", "&#x41;", "\x7f", "\x80", "\x84", "\x86", "\x9f",
+           # markup-like text whose name merely STARTS like the one tag the EML exporter treats specially
+           "<parameter>", "<paragraph>", "</parallel>", "<paras>", "</parametric>"]
 ATTR_CH = [c for c in TEXT_CH if c not in ("\t", "\n")]
 
 
